@@ -1105,6 +1105,62 @@ def run(n):
 ''', [("run", [(3,), (0,)])])
 
 
+# ---- a dict subclass that only adds helper methods
+case('''
+class Pending(dict):
+    """msg id -> slot"""
+    def register(self, maker, key):
+        slot = maker()
+        self[key] = slot
+        return slot
+
+    def resolve(self, key, value):
+        if key not in self:
+            return False
+        slot = self.pop(key)
+        slot.append(value)
+        return True
+
+    def fail_all(self, err):
+        for slot in self.values():
+            slot.append(err)
+        self.clear()
+
+class Client:
+    def __init__(self):
+        self.pending = Pending()
+        self.log = []
+
+    def call(self, key):
+        return self.pending.register(list, key)
+
+    def on_message(self, key, value):
+        if self.pending.resolve(key, value):
+            if value == "close":
+                self.log.append("closing")
+                raise ConnectionError("closed")
+        elif value == "ping":
+            self.log.append("pong")
+        else:
+            self.log.append(("request", value))
+
+    def cleanup(self, err):
+        self.pending.fail_all(err)
+
+def run(script):
+    c = Client()
+    slots = {k: c.call(k) for k in ("a", "b", "c")}
+    out = []
+    for key, value in script:
+        try:
+            c.on_message(key, value)
+        except ConnectionError as e:
+            out.append(str(e))
+    c.cleanup("lost")
+    return out, c.log, slots, dict(c.pending), type(c.pending).__mro__[-2].__name__
+''', [("run", [([("a", 1), ("zz", "ping"), ("b", "close"), ("q", 7)],), ([],)])])
+
+
 def outcome(ns, fn, args):
     import copy
     try:
